@@ -21,7 +21,7 @@ def check(chk, thorough=False):
     chk.run('C01.a', 'R-WHO', 'pending-start queue is appended at the tail and consumed only from the head', lambda ob: c01a(tree, ob), floor=2)
     chk.run('C01.b', 'R-FLOW', 'the three byte buffers are only appended to and prefix-dropped by exactly what was handed on', lambda ob: c01b(tree, ob), floor=7)
     chk.run('C01.c', 'R-GUARD+R-FLOW', 'segmenter: one read of the active item, START iff nothing sent before, END iff all sent after, one active transfer', lambda ob: c01c(tree, ob), floor=7)
-    chk.run('C01.d', 'R-ORDER+R-GUARD', 'receiver: setup only on START, mismatch rejected before any write, delivery only under END and of the written item', lambda ob: c01d(tree, ob), floor=7)
+    chk.run('C01.d', 'R-ORDER+R-GUARD', 'receiver: setup only on START, mismatch rejected before any write, delivery only under END and of the written item', lambda ob: (c01d(tree, ob), _start_guard(tree, ob)), floor=7)
     chk.run('C01.e', 'R-GUARD+R-WHO', "'success' is signalled for a sent bundle only in the ACK handler under END", lambda ob: c01e(tree, ob), floor=1)
     chk.run('C01.f', 'R-ORDER', 'every path from send_bundle_started to a return sends a segment or re-arms the queue', lambda ob: c01f(tree, ob), floor=1)
     chk.run('C01.i', 'R-GUARD', 'back-pressure is not taken for a dead connection: a send that would block keeps the octets and the connection', lambda ob: c01i(tree, ob), floor=2)
@@ -43,6 +43,11 @@ WRITERS = {
 }
 
 
+def _start_guard(tree, ob):
+    from .c17 import c17d_start
+    return c17d_start(tree, ob)
+
+
 def c01g(tree, ob):
     cls = tree.klass(SESS, 'ContactHandler')
     for attr, allowed in WRITERS.items():
@@ -62,6 +67,18 @@ def c01g(tree, ob):
 # ---------------------------------------------------------------- C01.a
 def c01a(tree, ob):
     cls = tree.klass(SESS, 'ContactHandler')
+    # what the queue queries hand out is the map in its own (insertion = arrival) order
+    for qn in ('recv_bundle_get_queue', 'send_bundle_get_queue'):
+        got = tree.find_method(SESS, 'ContactHandler', qn)
+        if not got:
+            continue
+        for r in [x for x in walk_local(got[2]) if isinstance(x, ast.Return) and x.value is not None]:
+            reord = [c for c in calls_in(r) if (call_name(c) or '').split('.')[-1] in ('sorted', 'reversed', 'set', 'frozenset', 'sort')]
+            if reord:
+                ob.violate(SESS, 'ContactHandler.' + qn, src(r)[:80], 'the queue is handed out re-ordered ({}): bundles are taken in another order than they arrived (as text, "10" sorts before "2")'.format(
+                    call_name(reord[0])), r)
+            else:
+                ob.site(SESS, r, qn + ' lists the map in arrival order')
     nappend = npop = 0
     for item in cls.body:
         if not isinstance(item, ast.FunctionDef):
@@ -524,6 +541,22 @@ def c01e(tree, ob):
 
 # ---------------------------------------------------------------- C01.f
 def c01f(tree, ob):
+    # _process_queue sends ONE segment per call and relies on send_buffer_decreased to be triggered again: the trigger must
+    # fire at the latest when the buffer is empty, for every segment size >= 1
+    fb = FuncView(tree, SESS, 'ContactHandler.send_buffer_decreased')
+    trig = method_calls(fb.func, '_process_queue_trigger', 'self')
+    for t in trig:
+        conds = [(tx, p) for (tx, p) in (fb.facts(t) or ()) if tx.startswith('buf_use <')]
+        bad = None
+        for (tx, p) in conds:
+            rhs = ast.parse(tx, mode='eval').body.comparators[0]
+            if p is True and any(isinstance(n, ast.BinOp) and isinstance(n.op, (ast.FloorDiv, ast.Div, ast.Sub, ast.RShift, ast.Mod)) for n in ast.walk(rhs)):
+                bad = tx
+        if bad:
+            ob.violate(SESS, fb.qual, 'if ' + bad, 'the refill threshold can be 0 (segment size 1): with an empty buffer the pump is not triggered again, a transfer of more than one segment '
+                       'stalls after its first segment and blocks the queue', t)
+        else:
+            ob.site(SESS, t, 'refill threshold is positive for every segment size')
     fv = FuncView(tree, SESS, 'ContactHandler._process_queue')
     func = fv.func
     starts = method_calls(func, 'send_bundle_started', 'self')
